@@ -22,7 +22,9 @@ import (
 	rangeplugin "github.com/coredhcp/coredhcp/plugins/range"
 	"github.com/insomniacslk/dhcp/dhcpv6"
 
+	"verifmc/checks/c16"
 	"verifmc/checks/optplug"
+	"verifmc/conc"
 	"verifmc/ev"
 	"verifmc/pkt"
 	"verifmc/reg"
@@ -156,6 +158,10 @@ func run(r *ev.Run) {
 		}()
 	}
 	wg.Wait()
+	// "never blocks forever" under concurrency: the lookup-during-reload scenarios of C16 are
+	// explored with all schedules up to the preemption bound; a deadlock (no thread can run)
+	// or a lock left held is reported here.
+	c16.RunSpecs(r, "C01", func(sp conc.Spec) bool { return sp.Reload })
 }
 
 func chainName(c Chain) string {
